@@ -269,7 +269,7 @@ def run(ctx: core.Ctx) -> None:
     from . import script_common as scc
     core.sany('ScriptMC')
     vrecs = scc.emit_layer(ctx, 'vstmt')
-    scc.replay(ctx, vrecs, checks=['c01'], namemaps=['plain'], what='vstmt', layouts=['canon'])
+    scc.replay(ctx, vrecs, checks=['c01'], namemaps=['plain', 'attrnames'], what='vstmt', layouts=['canon'])
 
     ctx.exhaustive = True
     ctx.extra['exhaustive_bound'] = (f'all {sum(27 ** i for i in range(n_full + 1))} strings of length <= {n_full} over the 27-character alphabet; '
